@@ -698,14 +698,15 @@ impl<T> TooDee<T> {
             let suffix = p.add(self.num_cols);
             ptr::copy(p, suffix, len - start);
             
-            // Only iterates a maximum of `self.num_cols` times.
-            while p < suffix {
+            // Iterates exactly `self.num_cols` times. The loop is counted rather than bounded by
+            // `p < suffix` because all pointers are equal when `T` is zero-sized.
+            for _ in 0..self.num_cols {
                 if let Some(e) = iter.next() {
                     ptr::write(p, e);
                     p = p.add(1);
                 } else {
                     // panic if the iterator length is less than expected
-                    assert_eq!(p, suffix, "unexpected iterator length");
+                    panic!("unexpected iterator length");
                 }
             }
             
